@@ -31,10 +31,11 @@ Proof.
       destruct (CH x eq_refl) as [_ E]. congruence.
     - intros NN. destruct (hub s c) as [g|] eqn:Hh; [|congruence].
       destruct (HB g eq_refl) as (x & L & _). rewrite L. apply (CH x L). }
-  repeat split; auto; try apply SUB; try (intros; apply CH; auto).
-  unfold delivered. destruct (hub s c) as [g|] eqn:Hh.
-  - assert (E : is_subscribed s c = true) by (apply SUB; congruence). rewrite E. reflexivity.
-  - destruct (is_subscribed s c) eqn:E; auto. apply SUB in E. congruence.
+  split; [exact SUB|]. split; [exact CH|]. split; [exact HB|].
+  unfold delivered. destruct SUB as [S1 S2]. destruct (is_subscribed s c).
+  - specialize (S1 eq_refl). destruct (hub s c); congruence.
+  - destruct (hub s c) as [g|] eqn:Hh; auto.
+    assert (E' : false = true) by (apply S2; congruence). discriminate.
 Qed.
 
 Theorem routing_settled sched s :
@@ -62,15 +63,33 @@ Definition timeout_witness : list label :=
   [LStep 8 false] ++ rep 4 (LStep 8 true) ++               (* B: handler error, rolls back generation 2 *)
   [LStep 2 true; LStep 2 true] ++                          (* A: hub add (gen 2), broker subscribe ok *)
   rep 5 (LStep 2 true) ++                                  (* A: post-add check fails, rolls back generation 1 *)
-  rep 11 (LStep 1 true) ++ rep 3 (LStep 3 true).           (* the two spawned closes *)
+  rep 10 (LStep 1 true) ++ rep 3 (LStep 3 true).           (* the two spawned closes *)
+
+(* every thread id the run ever allocated has finished *)
+Definition alloc_tids (s : st) : list tid :=
+  map (fun k => 2 * N.of_nat k) (seq 0 (N.to_nat (next_ext s))) ++
+  map (fun k => 2 * N.of_nat k + 1) (seq 0 (N.to_nat (next_int s))).
+Definition all_finished (s : st) : bool :=
+  forallb (fun t => match thr s t with None => true | Some _ => false end) (alloc_tids s).
+
+Lemma all_finished_settled s : Inv s -> all_finished s = true -> settled s.
+Proof.
+  intros I F t. destruct (thr s t) eqn:E; auto. exfalso.
+  assert (NN : thr s t <> None) by congruence.
+  unfold all_finished in F. rewrite forallb_forall in F.
+  assert (IN : In t (alloc_tids s)).
+  { unfold alloc_tids. apply in_or_app.
+    destruct (i_tids _ _ _ _ _ _ _ _ I _ NN) as [(k & -> & Hk)|(k & -> & Hk)]; [left|right];
+      apply in_map_iff; exists (N.to_nat k); (split; [rewrite N2Nat.id; auto|apply in_seq; lia]). }
+  specialize (F _ IN). rewrite E in F. discriminate.
+Qed.
 
 Lemma timeout_witness_breaks :
   exists s, exec timeout_witness init = Some s /\
-            (forall t, thr s t = None) /\ status s = Closed /\
+            all_finished s = true /\ status s = Closed /\
             hub s 0 = Some 2 /\ lookup 0 (chans s) = None /\ is_subscribed s 0 = false /\ delivered s 0 = 1.
 Proof.
   destruct (exec timeout_witness init) as [s|] eqn:E; [|vm_compute in E; discriminate].
   exists s. split; auto.
-  vm_compute in E. inv E. repeat split; try reflexivity.
-  intros t. cbv [thr upd]. repeat (destruct (N.eqb _ _); try reflexivity).
+  vm_compute in E. inv E. vm_compute. repeat split; reflexivity.
 Qed.
